@@ -882,7 +882,26 @@ def np_median(a, **kw):
 def np_digitize(x, bins, right=False):
     if _conc(x) and _conc(bins):
         return _delegate('digitize', x, bins, right)
-    raise Unsupported('digitize on symbolic cells')
+    if not _conc(bins) or right:
+        raise Unsupported('digitize with symbolic bins / right=True')
+    b = _np.asarray(unwrap(bins))
+    if b.ndim != 1 or not _np.all(_np.diff(b) > 0):
+        raise Unsupported('digitize: bins not strictly increasing')
+
+    def one(v):
+        # NumPy (right=False, increasing bins): i such that bins[i-1] <= v < bins[i] = #{edges <= v}
+        r = 0
+        for e in b.tolist():
+            r = r + ite(v >= e, 1, 0)
+        return r
+    x = _unlazy(x)
+    if isinstance(x, SVal):
+        return one(x)
+    x = _as_sarr(x)
+    o = _np.empty(x.shape, dtype=object)
+    for ix in _np.ndindex(x.shape):
+        o[ix] = one(_raw(x)[ix])
+    return _mk(o, _np.intp)
 
 
 def np_may_share_memory(a, b, **kw):
